@@ -1,16 +1,18 @@
 #!/bin/sh
-# usage: check_seeds.sh  -- re-runs every check against every kept seeded change (scratch copies under ${TMPDIR:-/tmp}, removed afterwards)
-# prints one line per seed: caught-by list vs meta.json; exit 1 if a seed that was caught is now missed
+# usage: check_seeds.sh  -- re-runs every check against every kept seeded change (scratch copies under /tmp, removed afterwards), 8 seeds at a time
+# prints one line per seed; exit 1 if a seed is not caught by the check of the property it breaks
 cd /verif || exit 2
+tmp=$(mktemp -d)
+ls -d seeded/*/ | xargs -P 8 -I{} sh -c 'id=$(basename {}); /verif/tools/try_seed.sh $id /verif/{} > '"$tmp"'/$id.out 2>&1'
 fail=0
 for d in seeded/*/; do
   id=$(basename "$d")
   prop=$(python3 -c "import json;print(json.load(open('$d/meta.json'))['breaks_property'])")
-  out=$(tools/try_seed.sh "$id" "/verif/$d" 2>&1)
-  fired=$(echo "$out" | sed -n 's/.*check \(C[0-9]*\) -> exit 1.*/\1/p' | sort -u | tr '\n' ' ')
+  fired=$(sed -n 's/.*check \(C[0-9]*\) -> exit 1.*/\1/p' "$tmp/$id.out" | sort -u | tr '\n' ' ')
   case " $fired" in
     *" $prop "*) echo "$id: property $prop caught (checks firing: $fired)";;
     *) echo "$id: property $prop NOT caught by its own check (firing: $fired)"; fail=1;;
   esac
 done
+rm -rf "$tmp"
 exit $fail
